@@ -19,7 +19,7 @@ ASSUMPTIONS = ["SAM text parsing is biogo/hts (trusted); the model starts from t
 
 
 def make_case(cid, ref, recs, opts, meta, with_oracle=True):
-    samb = samgen.render_sam("ref", len(ref), recs)
+    samb = samgen.render_sam("ref", len(ref), recs, trail=opts.get("trail", True))
     go = {"id": cid, "op": "toma", "sam": cm.b64(samb), "wrap": opts["wrap"], "start": opts["start"], "end": opts["end"],
           "pad": opts["pad"], "threads": opts["threads"]}
     exp = samgen.expected_toma(recs, len(ref), opts["pad"], opts["start"], opts["end"], opts["wrap"]) if with_oracle else None
@@ -33,7 +33,7 @@ def make_case(cid, ref, recs, opts, meta, with_oracle=True):
 
 def random_opts(rng, n):
     o = {"pad": rng.random() < 0.4, "wrap": rng.choice([0, 0, 1, 3, 7, n, n + 5]), "start": -1, "end": -1,
-         "threads": rng.choice([1, 2, 4, 8])}
+         "threads": rng.choice([1, 2, 4, 8]), "trail": rng.random() > 0.12}      # trail False: no newline after the last record
     r = rng.random()
     if r < 0.2:
         o["start"] = rng.randint(1, n)
